@@ -31,12 +31,12 @@ inductive Call where
   | openPath (path : Bytes)                       -- open(path, O_RDONLY|O_CLOEXEC)
   | fopen (path : Bytes)                          -- the configuration file
   | read (fd : Handle)
-  | write (fd : Handle) (n : Nat)
+  | write (fd : Handle) (data : Bytes)            -- the bytes the program hands to write(2)
   | fsync (fd : Handle)
   | close (fd : Handle)
   | dupfd (fd : Handle)                           -- fcntl(F_DUPFD_CLOEXEC)
   | fdopen (fd : Handle)
-  | fprintf (fd : Handle) (n : Nat)               -- n = bytes the format produces
+  | fprintf (fd : Handle) (data : Bytes)          -- the bytes the format produces
   | fflush (fd : Handle)
   | fclose (fd : Handle)
   | renameat (d1 : Handle) (n1 : Bytes) (d2 : Handle) (n2 : Bytes)
@@ -66,6 +66,12 @@ inductive Res where
   | eof                        -- readdir END
   | err (errno : String)
 deriving Repr, DecidableEq
+
+/-- Same call, disregarding the payload of write/fprintf (a trace only shows the byte count). -/
+def Call.same : Call → Call → Bool
+  | .write a _, .write b _ => a == b
+  | .fprintf a _, .fprintf b _ => a == b
+  | a, b => a == b
 
 def Res.isErr : Res → Bool
   | .err _ => true
@@ -146,7 +152,17 @@ def World.device (w : World) (path : Bytes) : Nat :=
 
 /-- Sorted names of a directory as the shim's snapshot presents them (`.`, `..` first). -/
 def sortedNames (es : List (Bytes × Nat)) : List Bytes :=
-  (es.map (·.1)).mergeSort (fun a b => decide (a ≤ b))
+  (([46] : Bytes) :: ([46, 46] : Bytes) :: es.map (fun e => e.1)).mergeSort (fun a b => decide (a ≤ b))
+
+/-- Data transferred by a successful `write` / `fprintf` (the program knows what it wrote). -/
+def applyWrite (w : World) (fd : Handle) (data : Bytes) (n : Nat) : World :=
+  match w.obj fd with
+  | .file fid off wr =>
+    match w.file fid with
+    | some f => (w.setFile fid { f with data := f.data ++ data.take n }).setObj fd (.file fid (off + n) wr)
+    | none => w
+  | .stream fid buf => w.setObj fd (.stream fid (buf ++ data.take n))
+  | _ => w
 
 /-- The effect of a call that SUCCEEDED with result `r` on the abstract world, `none` if such a
 result is impossible in this world (e.g. a successful rename of a name that is not bound).
@@ -191,7 +207,8 @@ def applyOk (w : World) (c : Call) (r : Res) : Option World :=
         if off + n ≤ f.data.length && (n > 0 || off == f.data.length) then some (w.setObj fd (.file fid (off + n) wr)) else none
     | .other => some w
     | _ => none
-  | .write _ _, .ok _ => some w          -- the data written is supplied by `applyWrite`
+  | .write fd data, .ok n =>
+    if n == 0 || n > data.length then none else some (applyWrite w fd data n)
   | .fsync fd, .ok _ =>
     match w.obj fd with
     | .file fid _ _ => (w.file fid).map fun f => w.setFile fid { f with durable := f.data }
@@ -207,7 +224,8 @@ def applyOk (w : World) (c : Call) (r : Res) : Option World :=
     match w.obj fd with
     | .file fid _ _ => some (w.setObj fd (.stream fid []))
     | _ => none
-  | .fprintf _ _, .ok _ => some w        -- see `applyWrite`
+  | .fprintf fd data, .ok n =>
+    if n != data.length then none else some (applyWrite w fd data n)
   | .fflush fd, .ok _ =>
     match w.obj fd with
     | .stream fid buf => (w.file fid).map fun f => (w.setFile fid { f with data := f.data ++ buf }).setObj fd (.stream fid [])
@@ -244,15 +262,5 @@ def applyOk (w : World) (c : Call) (r : Res) : Option World :=
   | .waitpid, .ok _ => some w
   | _, .err _ => some w
   | _, _ => none
-
-/-- Data transferred by a successful `write` / `fprintf` (the program knows what it wrote). -/
-def applyWrite (w : World) (fd : Handle) (data : Bytes) (n : Nat) : World :=
-  match w.obj fd with
-  | .file fid off wr =>
-    match w.file fid with
-    | some f => (w.setFile fid { f with data := f.data ++ data.take n }).setObj fd (.file fid (off + n) wr)
-    | none => w
-  | .stream fid buf => w.setObj fd (.stream fid (buf ++ data.take n))
-  | _ => w
 
 end Mdsort.Model
